@@ -253,8 +253,19 @@ def run(ck, prog, ctx):
             num = anc_calls(pv_ni.of_operand(gi, d["num"]), gi)
             den = anc_calls(pv_ni.of_operand(gi, d["den"]), gi)
             nn, dn = sorted(set(num.values())), sorted(set(den.values()))
-            ck.ob("FIELD", "GraphIc/numerator", bool(nn) and all(n.startswith("all_common_ancestor") for n in nn), "GraphIc's numerator sums the IC over %s (expected the inclusive common ancestors)" % (nn or "?"), where=gi.where(d["line"]))
-            ck.ob("FIELD", "GraphIc/denominator", bool(dn) and all(n.startswith("all_union_ancestor") for n in dn), "GraphIc's denominator sums the IC over %s (expected the inclusive union of ancestors)" % (dn or "?"), where=gi.where(d["line"]))
+            def private_source(op):
+                """the summed collection comes from a crate-private helper / iterator (a merge walk over the two ancestor lists, ...)"""
+                for a in pv_ni.of_operand(gi, op):
+                    if a[0] == "call" and a[1] in prog.bodies and not (prog.bodies[a[1]].exported or prog.bodies[a[1]].reachable) and prog.bodies[a[1]].file != FILE:
+                        return prog.bodies[a[1]].short
+                return None
+            if not nn and not dn and (private_source(d["num"]) or private_source(d["den"])):
+                ck.undecided("FIELD", "GraphIc/numerator", "GraphIc sums over what the crate-private %s yields: which ancestor sets that walks is not read by this rule" % (private_source(d["num"]) or private_source(d["den"])), where=gi.where(d["line"]))
+                nn = dn = None
+            if nn is not None:
+                ck.ob("FIELD", "GraphIc/numerator", bool(nn) and all(n.startswith("all_common_ancestor") for n in nn), "GraphIc's numerator sums the IC over %s (expected the inclusive common ancestors)" % (nn or "?"), where=gi.where(d["line"]))
+            if dn is not None:
+                ck.ob("FIELD", "GraphIc/denominator", bool(dn) and all(n.startswith("all_union_ancestor") for n in dn), "GraphIc's denominator sums the IC over %s (expected the inclusive union of ancestors)" % (dn or "?"), where=gi.where(d["line"]))
             for (bid, bi), n in sorted(list(num.items()) + list(den.items())):
                 ar = anc_args(bid, bi)
                 ck.ob("FIELD", "GraphIc/args/" + n, sorted(map(sorted, ar)) == [[2], [3]], "%s is called on (%s, %s) (expected the two terms a and b)" % (n, sorted(ar[0]), sorted(ar[1])), where=gi.where())
